@@ -21,6 +21,21 @@ const (
 	modPath  = "github.com/reedom/convergen"
 )
 
+func init() {
+	// hard wall-clock guard: a hung run must not look like success
+	d := 40 * time.Minute
+	if v := os.Getenv("VERIF_DEADLINE_MIN"); v != "" {
+		if n, err := strconv.Atoi(v); err == nil {
+			d = time.Duration(n) * time.Minute
+		}
+	}
+	go func() {
+		time.Sleep(d)
+		fmt.Println("INCONCLUSIVE deadline exceeded")
+		os.Exit(2)
+	}()
+}
+
 func main() {
 	if len(os.Args) < 2 {
 		fmt.Fprintln(os.Stderr, "usage: symgo check <property> <quick|thorough> | symgo run <harness> [-trace] | symgo replay <property> <path>")
@@ -316,6 +331,14 @@ func cmdCheck(prop, tier string) int {
 			}
 		}
 	}
+	// SSA inventories
+	var invRows []string
+	for _, kind := range inventoriesFor(prop) {
+		rows, unc := inventoryCheck(ld, kind)
+		invRows = append(invRows, rows...)
+		inconcl = append(inconcl, unc...)
+	}
+	inventoryRows = invRows
 	// known findings
 	for _, k := range known {
 		if k.Property == prop && k.Status == "known" && knownHits[k.ID] > 0 {
@@ -359,6 +382,18 @@ func cmdCheck(prop, tier string) int {
 		fmt.Printf("OK property=%s tier=%s harnesses=%d wall=%.1fs\n", prop, tier, len(specs), time.Since(start).Seconds())
 	}
 	return rc
+}
+
+var inventoryRows []string
+
+func inventoriesFor(prop string) []string {
+	switch prop {
+	case "C13":
+		return []string{"nondet"}
+	case "C15":
+		return []string{"fseffects"}
+	}
+	return nil
 }
 
 func writeEvidence(prop, tier string, specs []*HarnessSpec, results []*sym.HarnessResult, st *sym.SolverStats, wall, loadWall time.Duration,
@@ -426,6 +461,7 @@ func writeEvidence(prop, tier string, specs []*HarnessSpec, results []*sym.Harne
 			"known_findings_hit":            knownHits,
 			"replay_notes":                  replayNotes,
 			"load_s":                        loadWall.Seconds(),
+			"ssa_inventory":                 inventoryRows,
 		},
 		"assumptions": dedup(assumptions),
 		"wall_s":      wall.Seconds(),
